@@ -266,9 +266,14 @@ def normalize(raw):
         pf = pin["adts"].get(path)
         if pf is None or len(pf) != len(fields):
             continue
-        if [t for n, t in pf] != [t for n, t in fields]:
+        # fields that kept their name are themselves wherever they are declared (a pure reordering renames nothing);
+        # the others are paired in declaration order, types agreeing
+        pn, cn = {n for n, t in pf}, {n for n, t in fields}
+        gone = [(n, t) for n, t in pf if n not in cn]
+        came = [(n, t) for n, t in fields if n not in pn]
+        if len(gone) != len(came) or [t for n, t in gone] != [t for n, t in came]:
             continue
-        m = {c[0]: p[0] for c, p in zip(fields, pf) if c[0] != p[0]}
+        m = {c[0]: p[0] for c, p in zip(came, gone)}
         if m and len(set(m.values())) == len(m):
             fmap[path] = m
     if fmap:
